@@ -626,16 +626,17 @@ class Actions(Sub):
 
 
 
-HUGE = [10 ** 9, 999999999999, -10 ** 9, 1e308, 2 ** 70, 0.5, 2, 'abc']
+HUGE = [10 ** 9, 999999999999, -10 ** 9, 1e308, 2 ** 70, 0.5, 2, 'abc', '1e999999999']      # the last: TEXT spelling a huge number
 HUGE_LITERALS = ['9^999999999', '7*(9^99999999)', '2^1024', '99^999', '2^999999999^2', '10^400', '1/(9^99999999)', '(2^1023)*2',
                  '999999999^999999999', '1^999999999', '0^999999999', 'SUM(9^999999999,1)', '-9^99999999', '9^99999999&"a"',
-                 '9^99999999=9^99999999', 'IFERROR(9^999999999,1)']
+                 '9^99999999=9^99999999', 'IFERROR(9^999999999,1)', '"1e999999999"+0', '-"1e999999999"', '"5e-999999999"*2',
+                 'COUNTIF({1,2},">1e999999999")', '"1e999999999"="1e999999999"', '"1e999999999"&""']
 
 
 class Blowups(Sub):
     name = 'c01.blowups'
-    rule = ('each documented function x arity 1..3 x every argument tuple over {1e9, 1e12-1, -1e9, 1e308, 2^70, 0.5, 2, "abc"} that '
-            'holds at least one huge number (variables), and 16 literal forms with huge integer powers: a well-formed record '
+    rule = ('each documented function x arity 1..3 x every argument tuple over {1e9, 1e12-1, -1e9, 1e308, 2^70, 0.5, 2, "abc", the text "1e999999999"} that '
+            'holds at least one huge number (variables), 22 literal forms with huge integer powers or huge numeric text, and 6 flattening functions over 20 000 / 50 000 rows: a well-formed record '
             'within the step budget AND within a 3 s wall-clock alarm, under an address-space limit of 4 GiB - an exact '
             'integer power, a factorial, 10**digits or a padding to 10^9 places stalls below the Python level and executes no '
             'line; non-trivial = all')
@@ -709,7 +710,7 @@ class Blowups(Sub):
         name = documented(env)[ni]
         out = []
         for vals in itertools.product(HUGE, repeat=ar):
-            if not any(isinstance(v, (int, float)) and abs(v) >= 1e9 for v in vals):
+            if not any(isinstance(v, (int, float)) and abs(v) >= 1e9 or v == '1e999999999' for v in vals):
                 continue
             f = self.one(env, name, list(vals))
             if f:
